@@ -367,6 +367,8 @@ type c02Invalid struct {
 	// Orig/Comp: the case applies only if these two programs yield different values (a computed scalar that happens
 	// to equal the value at the location IS that location)
 	Orig, Comp string
+	// EmptyAlias: the computed value is an empty array and the location holds an empty array too (known finding D56)
+	EmptyAlias bool `json:",omitempty"`
 }
 
 var kC02Invalid = run.NewKind("c02.invalid-path", func(c *run.Ctx, t c02Invalid) *run.Fail {
@@ -390,7 +392,11 @@ var kC02Invalid = run.NewKind("c02.invalid-path", func(c *run.Ctx, t c02Invalid)
 		return run.Failf("%q panicked: %s", t.Src, tr.Panic)
 	}
 	if len(tr.Vals) > 0 || tr.End != run.EndError {
-		return run.Failf("%q on %s navigates from a computed value; it must raise an invalid-path error, got %s", t.Src, run.Clip(run.Canon(t.Input.V)), run.TraceDesc(tr))
+		f := run.Failf("%q on %s navigates from a computed value; it must raise an invalid-path error, got %s", t.Src, run.Clip(run.Canon(t.Input.V)), run.TraceDesc(tr))
+		if t.EmptyAlias {
+			f.Sig = "c02.invalid-path:empty-array-at-a-location-holding-an-empty-array"
+		}
+		return f
 	}
 	if !strings.Contains(tr.Err.Error(), "invalid path") {
 		return run.Failf("%q on %s: expected an invalid-path error, got: %v", t.Src, run.Clip(run.Canon(t.Input.V)), tr.Err)
@@ -695,6 +701,14 @@ func init() {
 						}
 						kC02Invalid.Do(c, c02Invalid{Src: src, C: s.c, Input: run.TV{V: in}})
 					}
+				}
+			}
+			// an empty array that was computed (or reached under another path) at a location that holds an empty array
+			// itself: all empty arrays without capacity are one address to the interpreter (known finding D56)
+			for _, src := range []string{"path(.a | [] | .[0])", "(.a | [] | .[0]) = 1", "(.a as $x | .b | $x | .[0]) = 1", "path(.a as $x | .b | $x | .[0])", "(.a | map(.) | .[0]) = 1", "(.a | [.[]] | .[1]) |= 7", "path(.a | ([] | .[0]), .[0])", "(.b | (.[1:] | .[0])) = 1"[:0] + "(.a | [empty] | .[2]) = 1",
+				"del(.a | [] | .[0])", "(.a | [] | .[0]) += 1", "path(.a | (. - .) | .[0])"} {
+				for _, in := range []any{map[string]any{"a": []any{}, "b": []any{}}, map[string]any{"a": []any{}, "b": []any{}, "c": 1}} {
+					kC02Invalid.Do(c, c02Invalid{Src: src, C: "", Input: run.TV{V: in}, EmptyAlias: true})
 				}
 			}
 			// a computed null is not the location either, unless the location holds null itself: constant keys, indices
